@@ -810,8 +810,11 @@ def r13(ctx: Ctx, rid: str = "C10.R13") -> None:
         plus1 = [x for e in org["exprs"] | ({arg} if arg is not None else set()) for x in ast.walk(e)
                  if isinstance(x, ast.BinOp) and isinstance(x.op, ast.Add)
                  and any(isinstance(y, ast.Constant) and y.value == 1 for y in (x.left, x.right))]
-        resolved = any(isinstance(c, ast.Call) and (dotted(c.func) or "").split(".")[-1] in ("_current_version_info", "_parse_hint_content")
-                       for c in org["calls"])
+        leafs = {(dotted(c.func) or "").split(".")[-1] for c in org["calls"] if isinstance(c, ast.Call)}
+        # the FULL resolution: the resolver itself, or (analysed in place) the pointer parse together with the recovery scan - a
+        # number taken from the pointer alone restarts at the constant when the pointer is lost
+        resolved = "_current_version_info" in leafs or ({"_parse_hint_content", "_recover_version_from_files"} <= leafs) \
+            or ({"_read_version_hint", "_recover_version_from_files"} <= leafs)
         ctx.ob(rid, f, "new version = resolved version + 1", n, bool(plus1) and resolved,
                "recovery without a pointer picks the highest version on disk: the numbering must follow the commit order")
         # constant definitions of the version variable are guarded by `<version> is None`
